@@ -71,9 +71,16 @@ def check(run, replay_case=None):
     if (thorough or os.environ.get('VERIF_SANITIZERS') == '1') and replay_case is None:
         # compress + decompress of small payloads under memory-safety monitors: Miri for the Rust codecs, memcheck for all (xz/zstandard are C)
         from .. import sanitizers
-        rust = [b for b, c in zip(b1, cases) if c['codec'] in ('null', 'deflate', 'snappy', 'bzip2') and len(c['data']) <= 600]
-        sanitizers.miri_stage(run, rust, ev, max_cases=int(os.environ.get('VERIF_MIRI_CASES', '60')), shards=12, what='codec_ops', max_bytes=4000,
-                              prefer=lambda b: (b[0]['codec']['name'] != 'null') * 2 + (len(b) > 1) + {'snappy': 0.3, 'bzip2': 0.2, 'deflate': 0.1}.get(b[0]['codec']['name'], 0))
+        per = {}
+        for b, c in zip(b1, cases):
+            if c['codec'] in ('deflate', 'snappy', 'bzip2') and len(c['data']) <= 600:
+                per.setdefault((c['codec'], len(b) > 1), []).append(b)
+        rust, want = [], int(os.environ.get('VERIF_MIRI_CASES', '60'))
+        while len(rust) < want and any(per.values()):
+            for k in sorted(per):
+                if per[k] and len(rust) < want:
+                    rust.append(per[k].pop(0))
+        sanitizers.miri_stage(run, rust, ev, max_cases=len(rust), shards=12, what='codec_ops', max_bytes=10 ** 9)
         sanitizers.memcheck_stage(run, [b for b, c in zip(b1, cases) if len(c['data']) <= 70000], ev, max_cases=400, shards=16)
     b2 = []
     for c in cases:
